@@ -20,6 +20,10 @@ def basicBKV : List (V × V) → Bool
   | (k, v) :: kvs => basicB k && basicB v && basicBKV kvs
 end
 
+def isIntV : V → Bool
+  | .int _ => true
+  | _ => false
+
 mutual
 def conf : Ty → V → Bool
   | .any, _ => true
@@ -34,7 +38,7 @@ def conf : Ty → V → Bool
   | .opt t, v => isNone v || conf t v
   | .union ts, v => confAny ts v
   | .coll o t, .coll o' vs => o == o' && vs.all (conf t)
-  | .map o k t, .map o' kvs => o == o' && kvs.all (fun kv => conf k kv.1 && conf t kv.2)
+  | .map o k t, .map o' kvs => o == o' && kvs.all (fun kv => conf k kv.1 && (if o == .counter then isIntV kv.2 else conf t kv.2))
   | .chain k t, .coll .chainmap ms =>
       ms.all (fun m => match m with
         | .map .dict kvs => kvs.all (fun kv => conf k kv.1 && conf t kv.2)
